@@ -366,3 +366,39 @@ def typed_attr_resolver(repo, cls_info, selfnames=("self",)):
                     return m[1], True, f.value
         return None
     return resolve
+
+
+def effective_tests(fn: ast.AST):
+    """(if-node, test expression) for every ``if`` of fn, where a test that is a bare local assigned in the
+    statement just before (``c = <expr>; if c:``) — or assigned exactly once in the function — is replaced by
+    that expression."""
+    amap = single_assign_map(fn)
+    out = []
+    for node in ast.walk(fn):
+        for field in ("body", "orelse", "finalbody"):
+            block = getattr(node, field, None)
+            if not (isinstance(block, list) and block and isinstance(block[0], ast.stmt)):
+                continue
+            for i, st in enumerate(block):
+                if not isinstance(st, ast.If):
+                    continue
+                t = st.test
+                if isinstance(t, ast.Name):
+                    prev = block[i - 1] if i > 0 else None
+                    if isinstance(prev, ast.Assign) and len(prev.targets) == 1 and isinstance(prev.targets[0], ast.Name) and prev.targets[0].id == t.id:
+                        t = prev.value
+                    else:
+                        t = expand_locals(t, amap)
+                else:
+                    t = expand_locals(t, amap)
+                out.append((st, t))
+        if isinstance(node, ast.Try):
+            for h in node.handlers:
+                for i, st in enumerate(h.body):
+                    if isinstance(st, ast.If):
+                        t = st.test
+                        prev = h.body[i - 1] if i > 0 else None
+                        if isinstance(t, ast.Name) and isinstance(prev, ast.Assign) and len(prev.targets) == 1 and isinstance(prev.targets[0], ast.Name) and prev.targets[0].id == t.id:
+                            t = prev.value
+                        out.append((st, expand_locals(t, amap)))
+    return out
